@@ -194,6 +194,15 @@ func histExec(c core.Case) core.Case {
 			}
 			err := proto.UnmarshalOptions{AllowPartial: true, Merge: true, NoLazyDecoding: core.Bool(s["nolazy"])}.Unmarshal(b2, o.m.Interface())
 			r = errClass(err)
+		case "evo": // schema evolution (C09): o2 := full(sub(o)) through a reader that lacks the fields in del
+			var del []int
+			for _, n := range core.List(s["del"]) {
+				del = append(del, core.Int(n))
+			}
+			r = evolve(o.m, o2.m, del, core.Bool(s["det"]))
+			if r.([]any)[0] == "" {
+				o2.dirty, o2.lz = false, true
+			}
 		case "scribble": // overwrite, in place, the backing arrays of all bytes values reachable from o (C14)
 			scribble(o.m)
 		case "equal":
@@ -230,7 +239,7 @@ func histExec(c core.Case) core.Case {
 	if n := len(obs); n > 0 { // the last step's observation, for tour lines that only predict that step
 		last := obs[n-1].(map[string]any)
 		out["lobjs"], out["lr"] = last["objs"], last["r"]
-		if sz, ok := last["r"].([]any); ok && len(sz) == 3 {
+		if sz, ok := last["r"].([]any); ok && len(sz) == 3 && core.Str(core.Map(steps[len(steps)-1])["op"]) == "size" {
 			out["lsize"] = sz[0]
 		}
 		if mr, ok := last["r"].(map[string]any); ok {
